@@ -24,13 +24,26 @@ What is proved, and how strongly.
   step with the literal windows and gates; they pin every number and comparison operator of the source.
 * `global_correct_two_points` — FULL strength, new: C04's theorem for a pair encoded from two different
   nearby positions (what a trajectory produces).
-* `sound_partial` — the "never a wrong position" clause, PARTIAL in the sense stated there.
+* `cache_invariant` — FULL strength, no kinematics: after any history every parity slot holds an earlier
+  report of the same address with its recorded time stamp, `pos` is what was attached to an earlier report of
+  that address stamped `timestamp`, the reference is the initial one or (callback only) an earlier attached fix.
+* `sound` — the "never a wrong position" clause as a theorem about WHOLE histories, by induction over the
+  history: `EncodesAll H → Kin upd reference H → every attached position is the lattice point of its own
+  report's true position`.  `Kin` is state-independent (true positions, kinds, addresses, RECORDED time stamps
+  only); `kin_of_deg` derives it from bounds in degrees between true positions (`KinDeg`).  What is NOT a
+  theorem: "≤ 700 kt, 10 s / 180 s windows, receiver within 40 NM, time stamps disordered only locally ⇒
+  `KinDeg`" (spherical kinematics: simulation only), and the conversion of the lattice point to "within 25 m".
+  `disorder_outside_kin`: outside `Kin` (time stamps exchanged across a long silence) a wrong position is
+  attached — by the real code as well.
+* `sound_step`, `sound_partial` — the one-step lemmas `sound` is built from (hypothesis on the decoder's state).
 * `surface_stale_witness` — the defect found (and repaired) in the surface branch, on the model of the code as
   it was; `source_gates_literal`, `gates_pinned` — the regenerated windows and gates are the documented ones.
 The `def`s of this file are statement vocabulary only (`entryOf`, `Truth`, `Encodes`, `SafeStep`, `Recovered`,
-the witness history and its metric).
+`History`, `EncodesAll`, `latticeOf`, `NearOf`, `PairOf`, `KinRel`, `Kin`, `NearDeg`, `KinRelDeg`, `KinDeg`,
+`Confined`, the witness and example histories and their metric).
 -/
-import Rs1090.Proofs.CprStateSound
+import Rs1090.Proofs.CprStateInv
+import Rs1090.Proofs.CprStateKin
 namespace Rs1090.Props.C06
 open Rs1090 Rs1090.Model.Cpr Rs1090.Model.CprState Rs1090.Spec.Cpr Rs1090.Proofs.Cpr Rs1090.Proofs.CprState
 
@@ -39,7 +52,15 @@ open Rs1090 Rs1090.Model.Cpr Rs1090.Model.CprState Rs1090.Spec.Cpr Rs1090.Proofs
 /-- **Non-interference** (fixed receiver reference, `update_reference = None`).  For every history `h` —
     any number of aircraft, any interleaving, losses, duplicates, time stamps whatsoever —, every address `A`,
     every receiver reference and every distance function: the positions attached to the reports of `A` by
-    the batch decoder run on `h` are exactly the positions attached when the reports of `A` are fed alone. -/
+    the batch decoder run on `h` are exactly the positions attached when the reports of `A` are fed alone.
+
+    Which callers run in this regime (`update_reference = None`): the Python binding (`python/src/lib.rs`,
+    `decode_positions(&mut res, position, &None)`), the example `crates/rs1090/examples/flight.rs`, and jet1090
+    by DEFAULT (`crates/jet1090/src/main.rs`: `update_reference = None` unless `--update-position`).
+    NOT covered: decode1090 ALWAYS passes a closure (`crates/decode1090/src/main.rs`: `alt < 1000`), and so does
+    jet1090 with `--update-position` (`alt < 5000`); those runs are in the regime of `interference_with_update`
+    (the reference is shared state, by design).  `sound` below holds in BOTH regimes (its `Kin` then also asks
+    that every low-flagged airborne fix be near every later surface report). -/
 theorem noninterference (dist : Pos → Pos → Rat) (reference : Option Pos) (h : List Report) (A : Address) :
     outputsOf A h (decodePositions Gates.source dist none reference h)
       = decodePositions Gates.source dist none reference (own A h) :=
@@ -373,8 +394,10 @@ theorem sound_step (dist : Pos → Pos → Rat) (upd : Option (Report → Bool))
     simp only [stepEntry_other Gates.source dist upd _ _ r hk] at h
     cases h
 
-/- FULL STATEMENT of the first clause of the property (kept visible; NOT proved — what is missing is only
-   the kinematic step, see `sound_partial`):
+/- FULL STATEMENT of the first clause of the property in the property's own terms (kept visible; NOT proved
+   in this form.  `sound` further down IS the whole-history theorem with the kinematics replaced by the
+   state-independent hypothesis `Kin`; what is missing between the two is "≤ 700 kt ⇒ `Kin`" and "lattice
+   point ⇒ 25 m" only):
 
      `sound` : ∀ (flights : finite set of great-circle flights, ground speed ≤ 700 kt, airborne or on the
          surface with the receiver reference within 40 NM of every surface report, |lat| ≤ 87° there)
@@ -383,8 +406,9 @@ theorem sound_step (dist : Pos → Pos → Rat) (upd : Option (Report → Bool))
        ∀ k p, (decodePositions Gates.source haversine none reference h)[k]? = some (some p) →
          greatCircleDistance p (position of h[k]'s aircraft at h[k]'s encoding time) ≤ 25 m
 
-   Proved instead: `sound_partial` below (the same conclusion, as exact recovery of the report's lattice
-   point, under the explicit safe-box hypotheses that the kinematics would supply), the degrees-to-lattice
+   Proved instead: `sound_partial` below (ONE step: the same conclusion, as exact recovery of the report's
+   lattice point, under safe-box hypotheses on the decoder's STATE), `sound` (WHOLE histories, hypotheses on
+   the true positions and recorded time stamps only, by induction with `cache_invariant`), the degrees-to-lattice
    bounds of C04/C05 (`recovered_close_*`), and — on the model of the code AS FOUND — the negation of `sound`
    by a concrete history (`surface_stale_witness`); the repaired code passes that history. -/
 
@@ -398,7 +422,9 @@ theorem sound_step (dist : Pos → Pos → Rat) (upd : Option (Report → Bool))
     PARTIAL: the statement the property makes is about aircraft flying at ≤ 700 kt; that 700 kt together with
     the 10 s and 180 s windows (and a receiver within 40 NM, |lat| ≤ 87°) puts the true positions inside
     these boxes (3.6 km < 4.5 km; 65 km < half a zone ≥ 83 km) is spherical kinematics, which is NOT proved
-    here: it is established by the simulation of the harness only. -/
+    here: it is established by the simulation of the harness only.  ALSO PARTIAL in that `SafeStep` speaks about
+    the decoder's state after `pre` (a stored message, an earlier output): `sound` below removes that by
+    induction over the history. -/
 theorem sound_partial (dist : Pos → Pos → Rat) (upd : Option (Report → Bool)) (reference : Option Pos)
     (pre post : List Report) (r : Report) (t : Truth) (henc : Encodes r t)
     (hsafe : SafeStep (runState Gates.source dist upd (Cache.empty, reference) pre).1
@@ -412,6 +438,336 @@ theorem sound_partial (dist : Pos → Pos → Rat) (upd : Option (Report → Boo
   rw [List.getElem?_append_right (by omega), hl, Nat.sub_self, List.getElem?_cons_zero] at h
   have h' := Option.some.inj h
   exact sound_step dist upd _ _ r t henc hsafe p h'
+
+/-! ### whole histories: the cache invariant and "never a wrong position" by induction -/
+
+/-- a history together with, for every report, the true position of its aircraft when the report was ENCODED
+    (format, latitude, longitude on any turn).  The list order is the order of DELIVERY to the decoder; the
+    recorded time stamp `ts` of a report is whatever the receiver wrote — nothing relates it to the encoding
+    time except `Kin` below. -/
+abbrev History := List (Report × Truth)
+
+/-- **The cache invariant** (no kinematics, no assumption on the contents of the reports; `α` = any
+    annotation of the reports).  After ANY history from the empty cache, with or without an
+    `update_reference` callback:
+    * every parity slot of every entry holds an earlier report of the same address — airborne, of that
+      parity — and the slot's time stamp is that report's recorded time stamp;
+    * `pos`, when present, is the position that was ATTACHED to an earlier report of the same address whose
+      recorded time stamp is `timestamp`;
+    * the receiver reference is the initial one, or — with a callback `f` only — the position attached to an
+      earlier airborne report (of any address) on which `f` answered `true`; with `update_reference = None`
+      it is the initial one (`reference_fixed`). -/
+theorem cache_invariant {α : Type} (dist : Pos → Pos → Rat) (upd : Option (Report → Bool))
+    (reference : Option Pos) (H : List (Report × α)) :
+    CacheInv (logOf Gates.source dist upd (Cache.empty, reference) H)
+      (runState Gates.source dist upd (Cache.empty, reference) (H.map Prod.fst)).1 ∧
+    RefInv upd reference (logOf Gates.source dist upd (Cache.empty, reference) H)
+      (runState Gates.source dist upd (Cache.empty, reference) (H.map Prod.fst)).2 :=
+  inv_run Gates.source source_gates_literal dist upd reference H
+
+/-- with `update_reference = None` the receiver reference never changes, whatever the history -/
+theorem reference_fixed {α : Type} (dist : Pos → Pos → Rat) (reference : Option Pos) (H : List (Report × α)) :
+    (runState Gates.source dist none (Cache.empty, reference) (H.map Prod.fst)).2 = reference := by
+  rcases (cache_invariant dist none reference H).2 with h | ⟨_, _, f, _, hf, _⟩
+  · exact h
+  · cases hf
+
+/-- every report of the history carries the DO-260B encoding of its true position -/
+def EncodesAll (H : History) : Prop := ∀ x ∈ H, Encodes x.1 x.2
+
+/-- the lattice point the encoder expects a receiver to recover from a report (a function of the kind of the
+    report and of its true position only; longitude on the turn of the true longitude) -/
+def latticeOf (x : Report × Truth) : Pos :=
+  match x.1.kind with
+  | .surface => ⟨rlat 19 x.2.i x.2.lat, rlon 19 x.2.i (rlat 19 x.2.i x.2.lat) x.2.lon⟩
+  | _ => ⟨rlat 17 x.2.i x.2.lat, rlon 17 x.2.i (rlat 17 x.2.i x.2.lat) x.2.lon⟩
+
+/-- the point `q` is inside the near box of the report `y` (strictly within half an airborne zone / half a
+    quarter surface zone of `y`'s lattice point, longitude on a suitable turn) -/
+def NearOf (y : Report × Truth) (q : Pos) : Prop :=
+  match y.1.kind with
+  | .airborne => NearBox 17 y.2.i 1 y.2.lat y.2.lon q
+  | .surface => NearBox 19 y.2.i 4 y.2.lat y.2.lon q
+  | .other => True
+
+/-- the true positions of two airborne reports are inside the pair box of `global_correct_two_points`:
+    at most 12/295 ° of latitude apart and, when their recovered latitudes lie in the same band `NL`, at most
+    `144/(NL(NL−1))` ° of longitude apart on a suitable turn -/
+def PairOf (x y : Report × Truth) : Prop :=
+  |x.2.lat - y.2.lat| ≤ 12 / 295 ∧
+  (NL (rlat 17 x.2.i x.2.lat) = NL (rlat 17 y.2.i y.2.lat) → ∃ k : ℤ,
+    (NL (rlat 17 y.2.i y.2.lat) : ℚ) * ((NL (rlat 17 y.2.i y.2.lat) : ℚ) - 1)
+      * |x.2.lon + 360 * k - y.2.lon| ≤ 144)
+
+/-- what `Kin` asks of a report `x` delivered BEFORE a report `y`.  Only true positions, kinds, formats,
+    addresses, RECORDED time stamps (and the answer of the caller's `update_reference` closure) occur — never
+    the state of the decoder.
+    Same aircraft:
+    * both airborne, of opposite formats, `0 ≤ y.ts − x.ts < 10` (the out-of-order guard and the pairing
+      window of the source) ⇒ pair box;
+    * `x` a position report, `y.ts − x.ts < 180` — NEGATIVE differences included, the source has no lower
+      bound there — ⇒ `x`'s lattice point is inside `y`'s near box.
+    Any two aircraft, only with an `update_reference` callback `f`: `x` airborne with `f x = true`, `y` a
+    surface report ⇒ `x`'s lattice point is inside `y`'s near box (the reference may have been moved there). -/
+def KinRel (upd : Option (Report → Bool)) (x y : Report × Truth) : Prop :=
+  (x.1.addr = y.1.addr →
+    (x.1.kind = .airborne → y.1.kind = .airborne → x.2.i ≠ y.2.i →
+      0 ≤ y.1.ts - x.1.ts → y.1.ts - x.1.ts < 10 → PairOf x y) ∧
+    (x.1.kind ≠ .other → y.1.ts - x.1.ts < 180 → NearOf y (latticeOf x))) ∧
+  (∀ f, upd = some f → f x.1 = true → x.1.kind = .airborne → y.1.kind = .surface → NearOf y (latticeOf x))
+
+/-- **The kinematic hypothesis** on a history — state-independent: `KinRel` for every pair (earlier
+    delivered, later delivered), and every surface report has the initial receiver reference, if there is
+    one, inside its near box.
+
+    Time stamps.  `Kin` is stated on the RECORDED time stamps, the only ones the decoder sees; the true
+    positions are those at the ENCODING times.  So a disorder of the stamps (exchanged stamps, swapped
+    delivery, a duplicate stamped later, late delivery) is admitted exactly when the boxes still hold for
+    the recorded differences.  At ≤ 700 kt (0.36 km/s) the pair box (≥ 4.5 km) leaves 2.5 s and the near
+    boxes (airborne ≥ 300 km; surface ≥ 81 km against 65 km in 180 s) leave ≥ 45 s of total stamp error;
+    the harness exchanges stamps / swaps deliveries of neighbours less than 1.5 s apart and stamps
+    duplicates up to 0.3 s later.  Outside it the decoder CAN attach a wrong position:
+    `disorder_outside_kin`. -/
+def Kin (upd : Option (Report → Bool)) (reference : Option Pos) (H : History) : Prop :=
+  H.Pairwise (KinRel upd) ∧
+  ∀ y ∈ H, y.1.kind = .surface → ∀ rf, reference = some rf → NearOf y rf
+
+/-- the near box of `y` holds for every point recovered from `x` (longitude on any turn) as soon as it holds
+    for `x`'s lattice point -/
+theorem near_of_recovered (x y : Report × Truth) (lp : Pos) (h : NearOf y (latticeOf x))
+    (hr : Recovered x.1 x.2 lp) : NearOf y lp := by
+  unfold NearOf at h ⊢
+  unfold latticeOf at h
+  unfold Recovered at hr
+  cases hx : x.1.kind <;> cases hy : y.1.kind <;> simp only [hx, hy] at h hr ⊢ <;>
+    first
+      | exact nearBox_of_isLattice h hr
+      | exact hr.elim
+
+/-- **Never a wrong position — whole histories** (log form; `sound` reads it by index).  By induction over
+    the history: the cache invariant turns the decoder's state into earlier reports and earlier OUTPUTS, the
+    induction hypothesis makes those outputs lattice points of their own true positions, `Kin` puts them
+    inside the safe boxes, and `sound_step` concludes. -/
+theorem sound_log (dist : Pos → Pos → Rat) (upd : Option (Report → Bool)) (reference : Option Pos)
+    (H : History) (henc : EncodesAll H) (hkin : Kin upd reference H) :
+    ∀ y ∈ logOf Gates.source dist upd (Cache.empty, reference) H, ∀ p, y.2 = some p →
+      Recovered y.1.1 y.1.2 p := by
+  apply logOf_forall Gates.source dist upd (Cache.empty, reference)
+    (fun y => ∀ p, y.2 = some p → Recovered y.1.1 y.1.2 p) H
+  intro pre x post hH hpre p hp
+  simp only at hp ⊢
+  obtain ⟨hc, hr⟩ := cache_invariant dist upd reference pre
+  generalize hst : runState Gates.source dist upd (Cache.empty, reference) (pre.map Prod.fst) = st
+    at hc hr hp
+  obtain ⟨c, ref⟩ := st
+  simp only at hc hr
+  have hxH : x ∈ H := by rw [hH]; simp
+  have hrel : ∀ a ∈ pre, KinRel upd a x := by
+    have h := hkin.1
+    rw [hH, List.pairwise_append] at h
+    intro a ha
+    exact h.2.2 a ha x List.mem_cons_self
+  have hex := henc x hxH
+  refine sound_step dist upd c ref x.1 x.2 hex ?_ p hp
+  have hE : EntryInv (logOf Gates.source dist upd (Cache.empty, reference) pre) x.1.addr (entryOf c x.1) :=
+    EntryInv.getD hc x.1
+  -- the last position, when young enough, is inside the near box of `x`
+  have hlast : ∀ lp, (entryOf c x.1).pos = some lp → x.1.ts - (entryOf c x.1).timestamp < 180 →
+      NearOf x lp := by
+    intro lp hlp h180
+    obtain ⟨y, hy, ha, hts, hout⟩ := hE.pos lp hlp
+    have hrec := hpre y hy lp hout
+    have hk' : y.1.1.kind ≠ .other := by
+      intro h; unfold Recovered at hrec; rw [h] at hrec; exact hrec
+    have hy' : y.1 ∈ pre := (List.of_mem_zip hy).1
+    exact near_of_recovered y.1 x lp (((hrel y.1 hy').1 ha).2 hk' (by rw [hts]; exact h180)) hrec
+  unfold SafeStep
+  cases hk : x.1.kind with
+  | other => trivial
+  | airborne =>
+    simp only
+    have hlast' := hlast
+    unfold NearOf at hlast'
+    simp only [hk] at hlast'
+    refine ⟨?_, hlast'⟩
+    intro o ho h10
+    have hguard := ((emitted_iff_airborne dist upd c ref x.1 hk p).1 hp).1
+    obtain ⟨y, hy, ha, hky, hmsg, hpar, hts⟩ := hE.other _ o ho
+    have hy' : y.1 ∈ pre := (List.of_mem_zip hy).1
+    obtain ⟨hiy, hry, hmy⟩ := henc y.1 (by rw [hH]; exact List.mem_append_left _ hy')
+    rw [hky] at hmy
+    simp only at hmy
+    obtain ⟨hix, hrx, hmx⟩ := hex
+    rw [hk] at hmx
+    simp only at hmx
+    have hne : y.1.2.i ≠ x.2.i := by
+      intro h
+      apply hpar
+      rw [← hmsg, hmy, hmx, report_parity, report_parity, h]
+    have hpo := ((hrel y.1 hy').1 ha).1 hky hk hne (by rw [hts]; exact hguard) (by rw [hts]; exact h10)
+    rw [← hmsg, hmy]
+    exact pairBox_of_deg x.2.i y.1.2.i (by omega) x.2.lat x.2.lon y.1.2.lat y.1.2.lon hry hpo.1 hpo.2
+  | surface =>
+    simp only
+    have hlast' := hlast
+    unfold NearOf at hlast'
+    simp only [hk] at hlast'
+    refine ⟨hlast', ?_⟩
+    intro rf hrf
+    have goal : NearOf x rf := by
+      rcases hr with h | ⟨z, hz, f, p', hupd, hf, hkz, hout, href⟩
+      · exact hkin.2 x hxH hk rf (by rw [← h]; exact hrf)
+      · have hz' : z.1 ∈ pre := (List.of_mem_zip hz).1
+        have hrec := hpre z hz p' hout
+        have e : rf = p' := by rw [href] at hrf; exact (Option.some.inj hrf).symm
+        subst e
+        exact near_of_recovered z.1 x _ ((hrel z.1 hz').2 f hupd hf hkz hk) hrec
+    unfold NearOf at goal
+    simp only [hk] at goal
+    exact goal
+
+/-- **Never a wrong position** (clause 1 of the property, as a theorem about WHOLE histories).  For every
+    history `H` (any number of aircraft, any interleaving, losses, duplicates, gaps, recorded time stamps
+    whatsoever), with or without an `update_reference` callback, any distance function, any initial receiver
+    reference: if every report carries the encoding of its aircraft's true position (`EncodesAll`) and the
+    true positions satisfy the state-independent kinematic hypothesis `Kin`, then every position the batch
+    decoder attaches to the `k`-th report IS the lattice point `(Rlat, Rlon + 360·n)` of that report's own true
+    position — which `recovered_close_*` (C04/C05) place within half a quantisation step of it per axis
+    (≤ 2.6 m airborne, ≤ 0.7 m surface; the conversion of degrees to metres is checked by the harness only).
+    The 50 km plausibility gate and the 1 km surface continuity test need nothing: they only remove positions.
+
+    What remains OUTSIDE Lean: that aircraft flying at ≤ 700 kt whose time stamps are disordered only
+    locally (see `Kin`), with the receiver within 40 NM of every surface report, satisfy `Kin` (`KinDeg`) —
+    spherical kinematics, established by the simulation of the harness only. -/
+theorem sound (dist : Pos → Pos → Rat) (upd : Option (Report → Bool)) (reference : Option Pos)
+    (H : History) (henc : EncodesAll H) (hkin : Kin upd reference H)
+    (k : ℕ) (x : Report × Truth) (p : Pos) (hx : H[k]? = some x)
+    (h : (decodePositions Gates.source dist upd reference (H.map Prod.fst))[k]? = some (some p)) :
+    Recovered x.1 x.2 p :=
+  sound_log dist upd reference H henc hkin (x, some p)
+    (logOf_getElem? Gates.source dist upd (Cache.empty, reference) H k x (some p) hx h) p rfl
+
+/-- … and what the cache holds, with the truths: after any such history the last position of an entry, when
+    present, is the lattice point (longitude on some turn) of the true position of an earlier report of
+    that address whose recorded time stamp is the entry's `timestamp`. -/
+theorem cache_positions_sound (dist : Pos → Pos → Rat) (upd : Option (Report → Bool))
+    (reference : Option Pos) (H : History) (henc : EncodesAll H) (hkin : Kin upd reference H)
+    (A : Address) (e : AircraftState)
+    (he : (runState Gates.source dist upd (Cache.empty, reference) (H.map Prod.fst)).1 A = some e)
+    (lp : Pos) (hlp : e.pos = some lp) :
+    ∃ x ∈ H, x.1.addr = A ∧ x.1.ts = e.timestamp ∧ Recovered x.1 x.2 lp := by
+  obtain ⟨y, hy, ha, hts, hout⟩ := ((cache_invariant dist upd reference H).1 A e he).pos lp hlp
+  exact ⟨y.1, (List.of_mem_zip hy).1, ha, hts, sound_log dist upd reference H henc hkin y hy lp hout⟩
+
+/-- the point `(lat', lon')` is inside the DEGREE box of the report `y`, measured from `y`'s true position:
+    airborne — at most 2.99 ° of latitude (half a zone is ≥ 3 °) and 0.49 longitude zone away; surface — at
+    most 0.74 ° of latitude (half a quarter zone is ≥ 0.75 °) and 0.49 quarter longitude zone away; the
+    longitude on a suitable turn.  The margins (0.01 °, 0.01 zone) absorb the quantisation of both reports. -/
+def NearDeg (lat' lon' : ℚ) (y : Report × Truth) : Prop :=
+  match y.1.kind with
+  | .airborne => |lat' - y.2.lat| ≤ 299 / 100 ∧
+      ∃ k : ℤ, |lon' + 360 * k - y.2.lon| ≤ 49 / 100 * dlon y.2.i (rlat 17 y.2.i y.2.lat)
+  | .surface => |lat' - y.2.lat| ≤ 74 / 100 ∧
+      ∃ k : ℤ, |lon' + 360 * k - y.2.lon| ≤ 49 / 100 * (dlon y.2.i (rlat 19 y.2.i y.2.lat) / 4)
+  | .other => True
+
+/-- `KinRel` in degrees between TRUE positions (no lattice point occurs) -/
+def KinRelDeg (upd : Option (Report → Bool)) (x y : Report × Truth) : Prop :=
+  (x.1.addr = y.1.addr →
+    (x.1.kind = .airborne → y.1.kind = .airborne → x.2.i ≠ y.2.i →
+      0 ≤ y.1.ts - x.1.ts → y.1.ts - x.1.ts < 10 → PairOf x y) ∧
+    (x.1.kind ≠ .other → y.1.ts - x.1.ts < 180 → NearDeg x.2.lat x.2.lon y)) ∧
+  (∀ f, upd = some f → f x.1 = true → x.1.kind = .airborne → y.1.kind = .surface →
+    NearDeg x.2.lat x.2.lon y)
+
+/-- **`Kin` in degrees**: what a kinematic argument (or the simulation) has to deliver — bounds between
+    true positions of reports of one aircraft whose recorded time stamps differ by less than 10 s / 180 s,
+    and between the receiver and every surface report. -/
+def KinDeg (upd : Option (Report → Bool)) (reference : Option Pos) (H : History) : Prop :=
+  H.Pairwise (KinRelDeg upd) ∧
+  ∀ y ∈ H, y.1.kind = .surface → ∀ rf, reference = some rf → NearDeg rf.lat rf.lon y
+
+/-- a point within (1/40000 °, 1/700 °) of a point of the degree box is inside the near box -/
+theorem near_of_deg (lat' lon' : ℚ) (y : Report × Truth) (hy : y.2.i ≤ 1) (q : Pos)
+    (hq1 : |q.lat - lat'| ≤ 1 / 40000) (hq2 : |q.lon - lon'| ≤ 1 / 700) (h : NearDeg lat' lon' y) :
+    NearOf y q := by
+  unfold NearDeg at h
+  unfold NearOf
+  cases hk : y.1.kind <;> simp only [hk] at h ⊢
+  · obtain ⟨h1, k, h2⟩ := h
+    exact nearBox_air_of_deg y.2.i hy y.2.lat y.2.lon q lat' lon' k hq1 hq2 h1 h2
+  · obtain ⟨h1, k, h2⟩ := h
+    exact nearBox_surf_of_deg y.2.i hy y.2.lat y.2.lon q lat' lon' k hq1 hq2 h1 h2
+
+/-- the lattice point of a report is within (1/40000 °, 1/700 °) of its true position -/
+theorem latticeOf_close (x : Report × Truth) (hx : x.2.i ≤ 1) :
+    |(latticeOf x).lat - x.2.lat| ≤ 1 / 40000 ∧ |(latticeOf x).lon - x.2.lon| ≤ 1 / 700 := by
+  unfold latticeOf
+  cases x.1.kind <;> simp only
+  · exact lattice_close 17 x.2.i (Or.inl rfl) hx x.2.lat x.2.lon
+  · exact lattice_close 19 x.2.i (Or.inr rfl) hx x.2.lat x.2.lon
+  · exact lattice_close 17 x.2.i (Or.inl rfl) hx x.2.lat x.2.lon
+
+/-- **the degree form implies `Kin`** (quantisation margins, proved) -/
+theorem kin_of_deg (upd : Option (Report → Bool)) (reference : Option Pos) (H : History)
+    (henc : EncodesAll H) (h : KinDeg upd reference H) : Kin upd reference H := by
+  refine ⟨h.1.imp_of_mem ?_, ?_⟩
+  · intro x y hx hy hxy
+    have hxi := (henc x hx).1
+    have hyi := (henc y hy).1
+    have hc := latticeOf_close x hxi
+    refine ⟨fun ha => ⟨(hxy.1 ha).1, fun hk hts => ?_⟩, fun f hupd hf hkx hky => ?_⟩
+    · exact near_of_deg _ _ y hyi _ hc.1 hc.2 ((hxy.1 ha).2 hk hts)
+    · exact near_of_deg _ _ y hyi _ hc.1 hc.2 (hxy.2 f hupd hf hkx hky)
+  · intro y hy hk rf hrf
+    exact near_of_deg rf.lat rf.lon y (henc y hy).1 rf (by simp) (by simp) (h.2 y hy hk rf hrf)
+
+/-- `sound` under the degree form of the kinematic hypothesis -/
+theorem sound_deg (dist : Pos → Pos → Rat) (upd : Option (Report → Bool)) (reference : Option Pos)
+    (H : History) (henc : EncodesAll H) (hkin : KinDeg upd reference H)
+    (k : ℕ) (x : Report × Truth) (p : Pos) (hx : H[k]? = some x)
+    (h : (decodePositions Gates.source dist upd reference (H.map Prod.fst))[k]? = some (some p)) :
+    Recovered x.1 x.2 p :=
+  sound dist upd reference H henc (kin_of_deg upd reference H henc hkin) k x p hx h
+
+/-- all true positions of the history, and the receiver reference if any, lie within 1/50 ° of a point `c`
+    in both coordinates (aircraft taxiing, holding or hovering around an airport; 2.2 km × ≥ 0.04 km) -/
+def Confined (c : Pos) (reference : Option Pos) (H : History) : Prop :=
+  (∀ x ∈ H, |x.2.lat - c.lat| ≤ 1 / 50 ∧ |x.2.lon - c.lon| ≤ 1 / 50) ∧
+  ∀ rf, reference = some rf → |rf.lat - c.lat| ≤ 1 / 50 ∧ |rf.lon - c.lon| ≤ 1 / 50
+
+/-- **`KinDeg` (hence `Kin`) is satisfiable, for every callback and ALL recorded time stamps**: any history
+    confined to 1/50 ° around a point satisfies it (pairs are then ≤ 1/25 ° apart: inside the pair box
+    12/295 °, `59·58/25 ≤ 144`, and inside both near boxes). -/
+theorem kinDeg_of_confined (upd : Option (Report → Bool)) (c : Pos) (reference : Option Pos) (H : History)
+    (h : Confined c reference H) : KinDeg upd reference H := by
+  have near : ∀ (lat' lon' : ℚ) (y : Report × Truth), |lat' - y.2.lat| ≤ 1 / 25 → |lon' - y.2.lon| ≤ 1 / 25 →
+      NearDeg lat' lon' y := by
+    intro lat' lon' y h1 h2
+    unfold NearDeg
+    cases y.1.kind <;> simp only
+    · have := dlon_ge y.2.i (rlat 17 y.2.i y.2.lat)
+      exact ⟨by linarith, 0, by simp only [Int.cast_zero, mul_zero, add_zero]; linarith⟩
+    · have := dlon_ge y.2.i (rlat 19 y.2.i y.2.lat)
+      exact ⟨by linarith, 0, by simp only [Int.cast_zero, mul_zero, add_zero]; linarith⟩
+  have tri : ∀ a b m : ℚ, |a - m| ≤ 1 / 50 → |b - m| ≤ 1 / 50 → |a - b| ≤ 1 / 25 := by
+    intro a b m h1 h2
+    rw [abs_le] at h1 h2 ⊢
+    constructor <;> linarith [h1.1, h1.2, h2.1, h2.2]
+  refine ⟨(List.pairwise_of_forall (fun _ _ => trivial)).imp_of_mem ?_, ?_⟩
+  · intro x y hx hy _
+    have hl := tri _ _ _ (h.1 x hx).1 (h.1 y hy).1
+    have hn := tri _ _ _ (h.1 x hx).2 (h.1 y hy).2
+    refine ⟨fun _ => ⟨fun _ _ _ _ _ => ⟨le_trans hl (by norm_num), fun _ => ⟨0, ?_⟩⟩,
+      fun _ _ => near _ _ y hl hn⟩, fun _ _ _ _ _ => near _ _ y hl hn⟩
+    simp only [Int.cast_zero, mul_zero, add_zero]
+    have h1 : (1 : ℚ) ≤ (NL (rlat 17 y.2.i y.2.lat) : ℚ) := by exact_mod_cast NL_ge_1 _
+    have h2 : (NL (rlat 17 y.2.i y.2.lat) : ℚ) ≤ 59 := by exact_mod_cast NL_le_59 _
+    calc (NL (rlat 17 y.2.i y.2.lat) : ℚ) * ((NL (rlat 17 y.2.i y.2.lat) : ℚ) - 1) * |x.2.lon - y.2.lon|
+        ≤ 3422 * (1 / 25) := mul_le_mul (by nlinarith) hn (abs_nonneg _) (by norm_num)
+      _ ≤ 144 := by norm_num
+  · intro y hy _ rf hrf
+    exact near _ _ y (tri _ _ _ (h.2 rf hrf).1 (h.1 y hy).1) (tri _ _ _ (h.2 rf hrf).2 (h.1 y hy).2)
 
 /-! ### the defect that was repaired, and interference through `update_reference` -/
 
@@ -454,6 +810,60 @@ theorem surface_stale_witness :
     (decodePositions Gates.source distHigh none (some ⟨71, -90⟩) staleHistory)[3]?
       = some (some ⟨137244015 / 1933312, -90⟩) := by
   refine ⟨by decide +kernel, by decide +kernel, by decide +kernel, by decide +kernel, by decide +kernel⟩
+
+/-- **Outside `Kin` a wrong position IS attached** (why the hypothesis on recorded time stamps is needed, and
+    what "locally swapped time stamps" must mean).  An aircraft sends an even report at 0 s and an odd one at
+    0.5 s from (70.98671°, −94.99744°), is not heard for 500 s while it flies 5° of longitude east (181 km;
+    704 kt here — any lower speed will do with a longer silence), and sends an odd report at 500.5 s.  The receiver
+    EXCHANGES the time stamps of the two neighbouring odd reports (500 s apart).  Every report carries the
+    encoding of its true position, but the third one — encoded at (70.98671°, −89.99744°), stamped 0.5 s — is
+    paired with the even report stamped 0 s: recorded difference 0.5 s < 10 s, true positions 5° apart, pair box
+    violated, `Kin` false.  The decoder attaches longitude 170.0026° to it: 260° (3228 km) off, and there is
+    no last position for the 50 km gate to compare with.  The real code does the same
+    (`corpus/C06/disorder_outside_kin.txt`, replayed on every run; with the truths given the harness oracle
+    reports `far`, 3 228 386 m).  The harness only exchanges stamps / swaps deliveries of neighbours less
+    than 1.5 s apart, which keeps `Kin` at 700 kt. -/
+def disorderHistory : History := [
+  ({ ts := 0, addr := 1, kind := .airborne, msg := ⟨.even, 108936, 129269⟩ },
+    ⟨0, 304885543845 / 4294967296, -408010903220 / 4294967296⟩),
+  ({ ts := 512512 / 1024, addr := 1, kind := .airborne, msg := ⟨.odd, 83091, 32785⟩ },
+    ⟨1, 304885586795 / 4294967296, -408010817321 / 4294967296⟩),
+  ({ ts := 512 / 1024, addr := 1, kind := .airborne, msg := ⟨.odd, 83091, 65553⟩ },
+    ⟨1, 304885586795 / 4294967296, -386536066740 / 4294967296⟩)]
+
+theorem disorder_outside_kin :
+    EncodesAll disorderHistory ∧ ¬ Kin none none disorderHistory ∧
+    (decodePositions Gates.source distHigh none none (disorderHistory.map Prod.fst))[2]?
+      = some (some ⟨68619735 / 966656, 5570645 / 32768⟩) ∧
+    latticeOf (({ ts := 512 / 1024, addr := 1, kind := .airborne, msg := ⟨.odd, 83091, 65553⟩ } : Report),
+      (⟨1, 304885586795 / 4294967296, -386536066740 / 4294967296⟩ : Truth))
+      = ⟨68619735 / 966656, -2949035 / 32768⟩ := by
+  refine ⟨?_, ?_, ?_, ?_⟩
+  rotate_left 2
+  · decide +kernel
+  · decide +kernel
+  · intro x hx
+    simp only [disorderHistory, List.mem_cons, List.not_mem_nil, or_false] at hx
+    rcases hx with rfl | rfl | rfl <;>
+      exact ⟨by decide, by constructor <;> norm_num, by decide +kernel⟩
+  · intro hk
+    have h := hk.1
+    simp only [disorderHistory, List.pairwise_cons] at h
+    have h02 := h.1 _ (List.mem_cons_of_mem _ List.mem_cons_self)
+    have hp := (h02.1 rfl).1 rfl rfl (by decide) (by norm_num) (by norm_num)
+    have hn : NL (rlat 17 0 (304885543845 / 4294967296)) = 19 := by decide +kernel
+    have hn' : NL (rlat 17 1 (304885586795 / 4294967296)) = 19 := by decide +kernel
+    obtain ⟨k, hk⟩ := hp.2 (by simp only [hn, hn'])
+    simp only [hn'] at hk
+    have hb : |(-408010903220 / 4294967296 : ℚ) + 360 * k - -386536066740 / 4294967296| ≤ 144 / 342 := by
+      rw [le_div_iff₀ (by norm_num)]
+      linarith [hk]
+    rw [abs_le] at hb
+    have h1 : (0 : ℚ) < k := by linarith [hb.1]
+    have h2 : (k : ℚ) < 1 := by linarith [hb.2]
+    have h1' : (0 : ℤ) < k := by exact_mod_cast h1
+    have h2' : k < (1 : ℤ) := by exact_mod_cast h2
+    omega
 
 /-- **With an `update_reference` callback the receiver reference is shared state: interference is possible by
     design.**  Aircraft 1 sends one surface report next to the receiver (71°, −90°); alone it is decoded
@@ -535,5 +945,88 @@ example :
       = [none, some ⟨48156435 / 966656, 3688425 / 606208⟩] ∧
     decodePositions Gates.source distHigh none none [o 5, e] = [none, none] := by
   refine ⟨by decide +kernel, by decide +kernel, by decide +kernel⟩
+
+/-- a history on which EVERY branch attaches a position: an aircraft near (70.987°, −94.998°), receiver at
+    (71°, −95°).  Report 0 even airborne; 1 odd airborne 0.42 s later (PAIR branch); 2 odd airborne at 12 s —
+    the even report is then 12 s old (REFERENCE branch, last position 11.6 s old); 3 odd surface at 100 s
+    (SURFACE, LAST POSITION, 88 s old); 4 even surface at 400 s — the last position is then 300 s old
+    (SURFACE, RECEIVER REFERENCE).  `corpus/C06/kin_example.txt`: the real code attaches the same positions. -/
+def branchHistory : History := [
+  ({ ts := 0, addr := 1, kind := .airborne, msg := ⟨.even, 108936, 129269⟩ },
+    ⟨0, 304885543845 / 4294967296, -408010903220 / 4294967296⟩),
+  ({ ts := 430 / 1024, addr := 1, kind := .airborne, msg := ⟨.odd, 83091, 32785⟩ },
+    ⟨1, 304885586795 / 4294967296, -408010817321 / 4294967296⟩),
+  ({ ts := 12, addr := 1, kind := .airborne, msg := ⟨.odd, 83097, 32788⟩ },
+    ⟨1, 304886832335 / 4294967296, -408008755736 / 4294967296⟩),
+  ({ ts := 100, addr := 1, kind := .surface, msg := ⟨.odd, 70253, 83⟩ },
+    ⟨1, 304887261832 / 4294967296, -408008326240 / 4294967296⟩),
+  ({ ts := 400, addr := 1, kind := .surface, msg := ⟨.even, 42563, 123880⟩ },
+    ⟨0, 304887261832 / 4294967296, -408007896743 / 4294967296⟩)]
+
+/-- the entry that report `k` of `branchHistory` finds -/
+def branchEntry (k : ℕ) (r : Report) : AircraftState :=
+  entryOf (runState Gates.source distHigh none (Cache.empty, some ⟨71, -95⟩)
+    ((branchHistory.take k).map Prod.fst)).1 r
+
+/-- **All hypotheses of `sound` hold together and every branch attaches a position** (audit: the reference
+    branch and both surface branches, not only the pair branch).  `branchHistory` satisfies `EncodesAll` and —
+    for every callback — `KinDeg`, hence `Kin`; the decoder attaches a position to reports 1–4, each through a
+    different branch: pair; reference (the pair branch gives nothing); surface against the last position;
+    surface against the receiver reference (the last position gives nothing). -/
+example :
+    EncodesAll branchHistory ∧
+    (∀ upd, KinDeg upd (some ⟨71, -95⟩) branchHistory ∧ Kin upd (some ⟨71, -95⟩) branchHistory) ∧
+    decodePositions Gates.source distHigh none (some ⟨71, -95⟩) (branchHistory.map Prod.fst)
+      = [none, some ⟨68619735 / 966656, -3112875 / 32768⟩, some ⟨68620005 / 966656, -778215 / 8192⟩,
+         some ⟨274480425 / 3866624, -12451425 / 131072⟩, some ⟨18608841 / 262144, -14786055 / 155648⟩] ∧
+    (let r : Report := { ts := 430 / 1024, addr := 1, kind := .airborne, msg := ⟨.odd, 83091, 32785⟩ }
+     pairDecode (branchEntry 1 r) r.ts r.msg = some ⟨68619735 / 966656, -3112875 / 32768⟩) ∧
+    (let r : Report := { ts := 12, addr := 1, kind := .airborne, msg := ⟨.odd, 83097, 32788⟩ }
+     pairDecode (branchEntry 2 r) r.ts r.msg = none ∧
+     refDecode (branchEntry 2 r) r.ts r.msg = some ⟨68620005 / 966656, -778215 / 8192⟩) ∧
+    (let r : Report := { ts := 100, addr := 1, kind := .surface, msg := ⟨.odd, 70253, 83⟩ }
+     surfLast distHigh (branchEntry 3 r) r.ts r.msg = some ⟨274480425 / 3866624, -12451425 / 131072⟩) ∧
+    (let r : Report := { ts := 400, addr := 1, kind := .surface, msg := ⟨.even, 42563, 123880⟩ }
+     surfLast distHigh (branchEntry 4 r) r.ts r.msg = none) := by
+  have henc : EncodesAll branchHistory := by
+    intro x hx
+    simp only [branchHistory, List.mem_cons, List.not_mem_nil, or_false] at hx
+    rcases hx with rfl | rfl | rfl | rfl | rfl <;>
+      exact ⟨by decide, by constructor <;> norm_num, by decide +kernel⟩
+  have hconf : Confined ⟨304885543845 / 4294967296, -408010903220 / 4294967296⟩ (some ⟨71, -95⟩)
+      branchHistory := by
+    constructor
+    · intro x hx
+      simp only [branchHistory, List.mem_cons, List.not_mem_nil, or_false] at hx
+      rcases hx with rfl | rfl | rfl | rfl | rfl <;>
+        (constructor <;> rw [abs_le] <;> constructor <;> norm_num)
+    · intro rf hrf
+      cases hrf
+      constructor <;> rw [abs_le] <;> constructor <;> norm_num
+  refine ⟨henc, fun upd => ?_, by decide +kernel, by decide +kernel, by decide +kernel, by decide +kernel,
+    by decide +kernel⟩
+  have hk := kinDeg_of_confined upd _ _ _ hconf
+  exact ⟨hk, kin_of_deg upd _ _ henc hk⟩
+
+/-- … and `sound` then says what it should about it: the position attached to report 2 (reference branch) is
+    the lattice point of report 2's own true position -/
+example : Recovered branchHistory[2].1 branchHistory[2].2 ⟨68620005 / 966656, -778215 / 8192⟩ := by
+  have henc : EncodesAll branchHistory := by
+    intro x hx
+    simp only [branchHistory, List.mem_cons, List.not_mem_nil, or_false] at hx
+    rcases hx with rfl | rfl | rfl | rfl | rfl <;>
+      exact ⟨by decide, by constructor <;> norm_num, by decide +kernel⟩
+  have hconf : Confined ⟨304885543845 / 4294967296, -408010903220 / 4294967296⟩ (some ⟨71, -95⟩)
+      branchHistory := by
+    constructor
+    · intro x hx
+      simp only [branchHistory, List.mem_cons, List.not_mem_nil, or_false] at hx
+      rcases hx with rfl | rfl | rfl | rfl | rfl <;>
+        (constructor <;> rw [abs_le] <;> constructor <;> norm_num)
+    · intro rf hrf
+      cases hrf
+      constructor <;> rw [abs_le] <;> constructor <;> norm_num
+  exact sound_deg distHigh none (some ⟨71, -95⟩) branchHistory henc (kinDeg_of_confined none _ _ _ hconf)
+    2 _ _ rfl (by decide +kernel)
 
 end Rs1090.Props.C06
